@@ -1078,7 +1078,7 @@ Definition pre25 (c : cfg) (s : state) (m : mon25) : Prop :=
   v_map m = (if c_varmap c then ch_map s else 7) /\
   v_target m = target_of s /\ in_range c s /\
   (0 < v_pending m -> v_last m <> None) /\
-  (v_last m <> None -> eff c m (selected s) /\ eff c m (proposal s)).
+  (v_prop m = proposal s /\ (v_last m <> None -> eff c m (selected s))).
 
 Definition core25 (c : cfg) (s : state) (m : mon25) : Prop :=
   pre25 c s m /\ (v_last m <> None -> j_ok c s).
@@ -1109,34 +1109,47 @@ Qed.
 Lemma type_of_code_at c k t : ty_at c k = Some t -> type_of_code c (pdu_code t) = Some t.
 Proof. intros H. unfold type_of_code. apply find_code. eapply ty_at_in; eauto. Qed.
 
-Ltac vsimpl := cbn [v_void v_pending v_last v_cands v_target v_map answer25 void25 fst snd].
+Ltac vsimpl := cbn [v_void v_pending v_last v_cands v_target v_map v_prop answer25 void25 fst snd].
 
+(* more candidates never hurt the invariant *)
+Lemma core25_grow c s m l :
+  core25 c s m ->
+  core25 c s (mkm25 false (v_pending m) (v_last m) (v_cands m ++ l) (v_target m) (v_map m) (v_prop m)).
+Proof.
+  intros ((PM & PT & PR & PP & PV & PE) & J). unfold core25, pre25, eff in *. vsimpl.
+  refine (conj (conj PM (conj PT (conj PR (conj PP (conj PV _))))) J).
+  intros L. destruct (PE L) as (t & E1 & [E2|E2]); exists t; split; auto. right. apply in_or_app. auto.
+Qed.
+
+(* after handle_start_advertising / handle_adv_timeout *)
 Lemma after_handler c s m s' x :
   pre25 c s m ->
   d_addr s' = d_addr s -> d_valid s' = d_valid s -> proposal s' = proposal s ->
   selected s' = (if is_multi c then proposal s else selected s) ->
   ch_map s' = ch_map s ->
   j_ok c s' -> sched_code_ok c s' x ->
-  fst (on_sched25 c m x) = Ok /\ core25 c s' (snd (on_sched25 c m x)).
+  fst (on_sched25 c true m x) = Ok /\ core25 c s' (snd (on_sched25 c true m x)).
 Proof.
-  intros (PM & PT & PR & PP & PE) A1 A2 A3 A4 A5 J SC.
+  intros (PM & PT & PR & PP & PV & PE) A1 A2 A3 A4 A5 J SC.
   assert (PM' : v_map m = (if c_varmap c then ch_map s' else 7)) by (rewrite A5; auto).
   assert (TT : target_of s' = target_of s) by (unfold target_of; rewrite A1, A2; auto).
   assert (R' : in_range c s').
   { intros M. specialize (PR M). rewrite A3, A4, M. tauto. }
-  assert (TY : ty_at c (proposal s') = ty_at c (selected s')).
-  { rewrite A3, A4. unfold ty_at. destruct (is_multi c); reflexivity. }
+  assert (PV' : v_prop m = proposal s') by congruence.
   destruct x as [|ch d code]; cbn [on_sched25 sched_code_ok] in *.
-  - cbn [fst snd]. split; auto. split; [|auto].
-    refine (conj PM' (conj _ (conj R' (conj PP _)))); [congruence|].
-    intros L. specialize (PE L). destruct PE as [E1 E2].
-    assert (E2' : eff c m (proposal s')) by (rewrite A3; auto).
-    split; auto. unfold eff in *. rewrite <- TY. auto.
+  - cbn [fst snd]. split; auto. split; [|auto]. unfold pre25, eff. vsimpl.
+    refine (conj PM' (conj _ (conj R' (conj PP (conj PV' _))))); [congruence|].
+    intros L. rewrite A4. destruct (is_multi c) eqn:M.
+    + (* the advertiser switched to the proposed type *)
+      destruct (ty_at_some c (proposal s)) as [t T]; [intros _; apply PR; auto|].
+      exists t. split; auto. right. apply in_or_app. right.
+      unfold prop_types. rewrite PV. unfold ty_at in T. rewrite M in T. rewrite T. left; auto.
+    + destruct (PE L) as (t & E1 & [E2|E2]); exists t; split; auto. right. apply in_or_app. auto.
   - destruct SC as (t & T1 & ->). rewrite sel_type_at in T1.
     rewrite (type_of_code_at c _ t T1). cbn [fst snd]. split; auto.
     split; [|auto]. unfold pre25, eff. vsimpl.
-    refine (conj PM' (conj _ (conj R' (conj _ _)))); [congruence|discriminate|].
-    intros _. rewrite TY, T1. split; exists t; auto.
+    refine (conj PM' (conj _ (conj R' (conj _ (conj PV' _))))); [congruence|discriminate|].
+    intros _. exists t; auto.
 Qed.
 
 Lemma pre25_answer c s m : pre25 c s m -> 0 < v_pending m -> pre25 c s (answer25 m).
@@ -1158,7 +1171,7 @@ Definition op_bytes_ok (o : op) : Prop :=
 Lemma in_effect_sel c s m t :
   pre25 c s m -> v_last m <> None -> sel_type c s = Some t -> In t (in_effect m).
 Proof.
-  intros (PM & PT & PR & PP & PE) L T. destruct (PE L) as [(t' & E1 & E2) _]. rewrite sel_type_at in T.
+  intros (PM & PT & PR & PP & PV & PE) L T. destruct (PE L) as (t' & E1 & E2). rewrite sel_type_at in T.
   assert (t' = t) by congruence. subst. unfold in_effect. destruct (v_last m) as [l|]; [|congruence].
   destruct E2 as [E2|E2]; [left; congruence|right; auto].
 Qed.
@@ -1180,7 +1193,7 @@ Qed.
 Lemma restart25 c s0 s1 m1 :
   pre25 c s1 m1 ->
   match lift (handle_start_advertising c s1) s0 with
-  | (s', OSched x) => fst (on_sched25 c m1 x) = Ok /\ core25 c s' (snd (on_sched25 c m1 x))
+  | (s', OSched x) => fst (on_sched25 c true m1 x) = Ok /\ core25 c s' (snd (on_sched25 c true m1 x))
   | (_, OFault) => True
   | _ => False
   end.
@@ -1232,7 +1245,7 @@ Proof.
                  | OAcc a => if existsb (fun t => may_connect_b (c_off c) (c_own c) (c_filter c) (v_target m) t p) (in_effect m)
                                 && addr_same a (initiator (c_off c) p) then (Ok, answer25 m) else (Bad t_accept_iff, m)
                  | ORej x => if existsb (fun t => negb (may_connect_b (c_off c) (c_own c) (c_filter c) (v_target m) t p)) (in_effect m)
-                             then on_sched25 c (answer25 m) x else (Bad t_accept_iff, m)
+                             then on_sched25 c true (answer25 m) x else (Bad t_accept_iff, m)
                  | OFault => (Bad t_fault, m)
                  | _ => (Bad t_shape, m)
                  end end) =
@@ -1241,7 +1254,7 @@ Proof.
                  | OAcc a => if existsb (fun t => may_connect_b (c_off c) (c_own c) (c_filter c) (v_target m) t p) (in_effect m)
                                 && addr_same a (initiator (c_off c) p) then (Ok, answer25 m) else (Bad t_accept_iff, m)
                  | ORej x => if existsb (fun t => negb (may_connect_b (c_off c) (c_own c) (c_filter c) (v_target m) t p)) (in_effect m)
-                             then on_sched25 c (answer25 m) x else (Bad t_accept_iff, m)
+                             then on_sched25 c true (answer25 m) x else (Bad t_accept_iff, m)
                  | OFault => (Bad t_fault, m)
                  | _ => (Bad t_shape, m)
                  end)).
@@ -1279,7 +1292,7 @@ Proof.
       destruct (lift (handle_start_advertising c s1) s) as [s' [x| | | | |]]; try contradiction; cbn [fst snd].
       * destruct H as [H1 H2]. split; auto. right; auto.
       * split; auto. apply void25_inv.
-    + cbn [fst snd on_sched25]. split; auto. right. apply core25_frame with (s := s); auto.
+    + cbn [fst snd on_sched25]. split; auto. right. apply core25_frame with (s := s); auto. apply core25_grow; auto.
   - (* StartN *)
     destruct (negb (c_manual c)); cbn [fst snd]; [split; auto; apply void25_inv|].
     destruct (k =? 0); cbn [fst snd]; [split; auto; apply void25_inv|].
@@ -1290,7 +1303,7 @@ Proof.
       destruct (lift (handle_start_advertising c s1) s) as [s' [x| | | | |]]; try contradiction; cbn [fst snd].
       * destruct H as [H1 H2]. split; auto. right; auto.
       * split; auto. apply void25_inv.
-    + cbn [fst snd on_sched25]. split; auto. right. apply core25_frame with (s := s); auto.
+    + cbn [fst snd on_sched25]. split; auto. right. apply core25_frame with (s := s); auto. apply core25_grow; auto.
   - (* Stop *)
     destruct (negb (c_manual c)); cbn [fst snd on_sched25]; split; auto; try apply void25_inv.
     right. apply core25_frame with (s := s); auto. unfold same25; psimpl; repeat split.
@@ -1320,7 +1333,7 @@ Proof.
     destruct (negb (has_directed c)); cbn [fst snd]; [split; auto; apply void25_inv|].
     set (valid := negb (addr_eqb a zero_addr)).
     set (s1 := set_daddr s a valid).
-    set (m1 := mkm25 false (v_pending m) (v_last m) (v_cands m) (if addr_same a zero_addr then None else Some a) (v_map m)).
+    set (m1 := mkm25 false (v_pending m) (v_last m) (v_cands m) (if addr_same a zero_addr then None else Some a) (v_map m) (v_prop m)).
     assert (P1 : pre25 c s1 m1).
     { unfold pre25, in_range, eff, target_of, s1, m1, valid in *. vsimpl. psimpl.
       refine (conj PM (conj _ (conj PR (conj PP PE)))).
@@ -1330,22 +1343,20 @@ Proof.
       destruct (lift (handle_start_advertising c s1) s) as [s' [x| | | | |]]; try contradiction; cbn [fst snd].
       * destruct H as [H1 H2]. split; auto. right; auto.
       * split; auto. apply void25_inv.
-    + cbn [fst snd on_sched25]. split; auto. right. split; auto.
-      unfold m1. vsimpl. intros L. specialize (J L). unfold j_ok, s1 in *. rewrite !sel_type_at in *. psimpl.
-      destruct J as [J|(J1 & J2 & J3)]; auto.
-      rewrite J2, J3 in ST. cbn [negb andb] in ST. rewrite andb_true_r in ST. unfold valid in *. rewrite ST. auto.
+    + cbn [fst snd on_sched25]. split; auto. right.
+      assert (C1 : core25 c s1 m1).
+      { split; auto.
+        unfold m1. vsimpl. intros L. specialize (J L). unfold j_ok, s1 in *. rewrite !sel_type_at in *. psimpl.
+        destruct J as [J|(J1 & J2 & J3)]; auto.
+        rewrite J2, J3 in ST. cbn [negb andb] in ST. rewrite andb_true_r in ST. unfold valid in *. rewrite ST. auto. }
+      apply (core25_grow c s1 m1 (prop_types c m1) C1).
   - (* Chg *)
     destruct (is_multi c && Nat.ltb k (length (types_of c))) eqn:G; cbn [fst snd]; [|split; auto; apply void25_inv].
     apply andb_prop in G as [G1 G2]. apply Nat.ltb_lt in G2.
-    destruct (nth_error (types_of c) k) as [t|] eqn:N; [|apply nth_error_None in N; lia].
-    split; auto. right.
-    assert (TK : ty_at c k = Some t) by (unfold ty_at; rewrite G1; auto).
+    split; auto. right. destruct PE as [PV PE].
     unfold core25, pre25, in_range, eff, target_of, j_ok in *. rewrite !sel_type_at in *. vsimpl. psimpl.
-    refine (conj (conj PM (conj PT (conj _ (conj PP _)))) J).
-    + intros M. specialize (PR M). tauto.
-    + intros L. destruct (PE L) as [(t1 & E1 & E2) _]. split.
-      * exists t1. split; auto. destruct E2; auto. right. apply in_or_app. auto.
-      * exists t. split; auto. right. apply in_or_app. right. left. auto.
+    refine (conj (conj PM (conj PT (conj _ (conj PP (conj eq_refl PE))))) J).
+    intros M. specialize (PR M). tauto.
   - (* DataChanged *)
     cbn [fst snd on_sched25]. split; auto. right. apply core25_frame with (s := s); auto.
     unfold same25; psimpl; repeat split.
@@ -1366,7 +1377,7 @@ Lemma init_inv25 c : inv25 c (init c) (minit25 c).
 Proof.
   right. unfold core25, pre25, in_range, minit25, init, target_of. vsimpl. psimpl.
   split; [|intros H; congruence].
-  refine (conj _ (conj eq_refl (conj _ (conj _ _)))).
+  refine (conj _ (conj eq_refl (conj _ (conj _ (conj eq_refl _))))).
   - destruct (c_varmap c); reflexivity.
   - intros M. apply multi_length in M. lia.
   - intros H. exfalso. revert H. apply N.lt_irrefl.
